@@ -12,6 +12,10 @@ def hooks_commits():
 
 # id -> dict(engine, category, technique, text, note, design_ref)
 CHECKS = {
+ "C11": dict(engine="h_filt", category="exploration", design="§3 C11",
+   technique="exhaustive enumeration of directive lists from the documented grammar x a metadata universe against a specificity reference model (+ Targets/EnvFilter agreement, would_enable, Display round trip), and explicit-state BFS over enter/exit/record histories for span-scoped directives",
+   text="Every list of <= 2 (thorough: <= 3) directives over targets with shared prefixes, field-name lists, level names in mixed case, digits, off, empty and invalid levels, bare levels and bare targets is parsed by Targets and EnvFilter and evaluated on 8 targets x 5 levels x 3 field sets x span/event: the verdict must be that of the most specific matching directive (ties accept both), both filter types must agree wherever both accept, would_enable must equal actual filtering, and printing then parsing must give a filter that prints and decides identically. For 8 span-scoped directive sets (names, targets, field presence, int/bool/string/regex value matchers) all histories up to the stated depth of {open span with an initial field value, record a value, close, events} are checked against 'level raised exactly while a matching span is entered, and for that span'.",
+   note="Only documented directive forms are in the pool. Known findings: F10 (empty level / empty string accepted), F12 (',' inside a field list splits the directive), F16 (span callsites matched by a span directive are always enabled whatever its level), F18 (values recorded while a span is entered do not raise the level until re-entry) are attributed by exact input shape / defect variant."),
  "C12": dict(engine="h_filt", category="model_checking", design="§3 C12",
    technique="explicit-state BFS over reload/emission histories on two real threads + preemption-bounded exhaustive schedule exploration of reload || emit || emit under the cooperative scheduler (fresh process per schedule)",
    text="For each way of using a reload handle (a global filter layer, a per-layer filter, a Filtered layer inside reload::Subscriber changed through modify) and each initial value, every history up to the stated depth of {reload to another value of any kind, events and span open/close on two threads, dropping the collector} is executed; after reload returns every emission (cached always / cached never / first hit) must be judged by the new value and a handle of a dropped collector must report is_dropped. Races reload || cached-callsite emission || first-hit emission / span lifecycle are explored over every interleaving up to the preemption bound: an overlapping emission is judged entirely by the old or entirely by the new value, later ones by the new value, no deadlock.",
